@@ -1863,7 +1863,9 @@ class Pipeline:
 
         if inputs is not None:
             new_root_args = set(pipeline.topological_generations.root_args)
-            if not new_root_args.issubset(inputs):
+            # Root arguments that keep their default value do not have to be provided.
+            with_defaults = set(pipeline.defaults) & set(self.defaults)
+            if not (new_root_args - with_defaults).issubset(inputs):
                 outputs = {f.output_name for f in pipeline.functions}
                 msg = (
                     f"Cannot construct a partial pipeline with `{outputs=}`"
